@@ -361,6 +361,10 @@ def gen_setup_client(seed, opts=None):
             'auto': {'respond': 'complete', 'keepalive': 'echo'}, 'script': [], 'nontrivial': True}
     if cfg['honor_lease']:
         plan['script'].append({'at': rng.choice([0.0, 0.002, 1.0]), 'frame': {'t': 'LEASE', 'ttl_ms': 0x7FFFFFFF, 'n': 0x7FFFFFFF}})
+        if rng.random() < 0.5:
+            # the client announces leases of its own (it subscribes to its lease publisher inside connect())
+            cfg['lease_script'] = [{'at': _pick(rng, [(2, 0.0), (1, 0.0001), (1, 0.01), (1, 0.5)]), 'n': rng.randint(1, 9), 'ttl_us': 5_000_000}
+                                   for _ in range(rng.randint(1, 3))]
     ias = []
     for i in range(rng.randint(0, 4)):
         kind = _pick(rng, [(3, 'rr'), (2, 'fnf'), (2, 'push'), (1, 'stream'), (1, 'channel')])
